@@ -17,6 +17,8 @@ namespace Octave
 
 abbrev Str := List Char
 
+deriving instance DecidableEq for Except
+
 /-! ## Abstract file system -/
 
 inductive Node where
@@ -78,17 +80,20 @@ def pathName (p : PPath) : Str := p.tail.getLast?.getD []
 
 /-- `name.rfind('.')`-based `suffix`: the text from the last dot, provided the dot is neither the first
 nor the last character of the name. -/
+def notDot (c : Char) : Bool := !(c == '.')
+def isDot (c : Char) : Bool := c == '.'
+
 def suffixOf (name : Str) : Str :=
   let r := name.reverse
-  let ext := r.takeWhile (· ≠ '.')
-  match r.dropWhile (· ≠ '.') with
+  let ext := r.takeWhile notDot
+  match r.dropWhile notDot with
   | [] => []                                  -- no dot
   | _ :: before => if before = [] ∨ ext = [] then [] else '.' :: ext.reverse
 
 /-- `path.suffixes` -/
 def suffixesOf (name : Str) : List Str :=
   if name.getLast? = some '.' then []
-  else ((splitOnChar '.' (name.dropWhile (· = '.'))).drop 1).map ('.' :: ·)
+  else ((splitOnChar '.' (name.dropWhile isDot)).drop 1).map ('.' :: ·)
 
 /-- `"".join(path.suffixes[-2:]) if len(path.suffixes) >= 2 else path.suffix` -/
 def compoundSuffix (name : Str) : Str :=
@@ -349,12 +354,10 @@ def schemaNameOk (n : Str) : Bool :=
   | c :: cs =>
     isUpperAZ c && (if cs.getLast? = some '\n' then cs.dropLast.all schemaBodyChar else cs.all schemaBodyChar)
 
-def asciiLower (c : Char) : Char := if isUpperAZ c then Char.ofNat (c.toNat + 32) else c
-
 def octMd : Str := ".oct.md".toList
 
 /-- the two file-name patterns tried in each directory, in source order -/
-def schemaCandidates (n : Str) : List Str := [n.map asciiLower ++ octMd, n ++ octMd]
+def schemaCandidates (n : Str) : List Str := [n.map Char.toLower ++ octMd, n ++ octMd]
 
 /-- `dir / pattern` (pathlib join: an absolute right operand replaces the left one). -/
 def joinPath (dir : List Str) (s : Str) : List Str :=
@@ -470,6 +473,43 @@ def validateSourceUri (fs : Fs) (fuel : Nat) (fixpoint : Bool) (base : List Str)
           | .error e => .error e
           | .ok r' => if r' ≠ r then .error .resolveFailed else if b.isPrefixOf r then .ok r else .error .outside
         else if b.isPrefixOf r then .ok r else .error .outside
+
+/-! ## Flattened file-operation programs (Gen.programs) -/
+
+/-- an op of a generated program: (kind, class, name); kind = validate | guard-return | recheck-return | loop | io;
+class (for io) = read | create | replace | meta | stdin | write-call -/
+abbrev GOp := String × String × String
+
+def isFileIO (op : GOp) : Bool :=
+  op.1 = "io" && (op.2.1 = "read" || op.2.1 = "create" || op.2.1 = "replace" || op.2.1 = "write-call")
+
+/-- what runs when the validator refuses: the `guard-return` right after `validate` leaves the function -/
+def runRefused : List GOp → List GOp
+  | [] => []
+  | op :: rest =>
+    if op.1 = "validate" then
+      match rest with
+      | g :: _ => if g.1 = "guard-return" then [] else runRefused rest
+      | [] => []
+    else if isFileIO op || op.1 = "loop" then op :: runRefused rest
+    else runRefused rest
+
+/-- what runs after a successful validation when the final component is a symlink that the re-check sees -/
+def runLinkSeen : List GOp → List GOp
+  | [] => []
+  | op :: rest =>
+    if op.1 = "recheck-return" then []
+    else if (op.1 = "io" && (op.2.1 = "replace" || op.2.2 = "tempfile.mkstemp")) || op.1 = "loop" then op :: runLinkSeen rest
+    else runLinkSeen rest
+
+/-! ## Checking that a finite table is a well-formed tree -/
+
+def wfCheck (l : List (List Str × Node)) : Bool :=
+  l.all fun e =>
+    match e.1.getLast? with
+    | none => true
+    | some n => decide (utf8Len n ≤ nameMax) &&
+        (e.1.dropLast == [] || (l.find? (fun e' => e'.1 == e.1.dropLast)).map (·.2) == some Node.dir)
 
 /-- known-finding class F60: resolving `base / u` runs into a symlink cycle (`realpath(strict=False)` then
 returns a partially resolved path). -/
